@@ -41,6 +41,26 @@ pub fn rng(seed: u64, stream: &str) -> ChaCha20Rng {
     ChaCha20Rng::from_seed(h.finalize().into())
 }
 
+// ---- which case is the real implementation working on?  (for panics that no module catches)
+static CASES: std::sync::Mutex<Vec<(std::thread::ThreadId, String)>> = std::sync::Mutex::new(Vec::new());
+pub static LAST_PANIC: std::sync::Mutex<Option<String>> = std::sync::Mutex::new(None);
+/// Modules that call the real code without `catch_unwind` announce the input first; if the call panics, `main` writes the
+/// announced case to `<out>/harness_panic.txt` and the check reports it as the failing input.
+pub fn note_case(desc: impl Into<String>) {
+    let id = std::thread::current().id();
+    let mut g = CASES.lock().unwrap_or_else(|e| e.into_inner());
+    let d = desc.into();
+    match g.iter_mut().find(|(t, _)| *t == id) {
+        Some(e) => e.1 = d,
+        None => g.push((id, d)),
+    }
+}
+pub fn current_case() -> String {
+    let id = std::thread::current().id();
+    let g = CASES.lock().unwrap_or_else(|e| e.into_inner());
+    g.iter().find(|(t, _)| *t == id).map(|e| e.1.clone()).unwrap_or_default()
+}
+
 /// A seeded stream whose first bytes are fixed (all-zero / all-one prefixes give the degenerate random tapes: zero choice
 /// bits, ephemeral scalar 0, a scalar candidate above the group order, ...).  The prefix is chosen by the stream NAME
 /// (`...#zero64`, `...#ones32`, `...#zero96`), so that every place that re-creates the stream gets the same bytes.
